@@ -35,8 +35,8 @@ ASSUMPTIONS = [
     "float arithmetic in _compute_partition_boundaries (n_old / n_new, int(i * ratio)): operands are concretised and CPython's IEEE arithmetic is used",
 ]
 STUBS = ["stub pyarrow package for import", "duck-typed `self` (SimpleNamespace with frame.divisions/_name/npartitions) for the _layer methods"]
-ENUM = ["lengths of the division vectors", "n_old/n_new in RepartitionToFewer (float ratio concretises them)", "L and k of split_evenly (np.linspace)", "all inputs of the numeric more-partitions path (np.interp in float64): base value from a list incl. |v| > 2**53, gaps, npartitions"]
-OUTSIDE = ["partition_size (memory measurement)", "freq", "datetime divisions in the np.interp path"]
+ENUM = ["lengths of the division vectors", "n_old/n_new in RepartitionToFewer (float ratio concretises them)", "L and k of split_evenly (np.linspace)", "all inputs of the numeric more-partitions path (np.interp in float64): base value from a list incl. |v| > 2**53 and datetime64[ns] stamps that float64 cannot hold, gaps, npartitions"]
+OUTSIDE = ["partition_size (memory measurement)", "freq"]
 BOUNDS = {
     "quick": dict(old_divisions="2..4 symbolic ints, strictly increasing except the last two may be equal", new_divisions="2..4", values="unbounded ints",
                   force="both", tofewer="n_old in [2,10]", tomore="n_old in [1,3], n_new <= 8"),
@@ -297,13 +297,15 @@ def mk_split_evenly(Lmax, kmax):
 
 
 BASES = (0, -7, 2 ** 53 + 1, 2 ** 62 + 3, -(2 ** 53) - 1)
+DT_BASES = (1_700_000_000_001_000_000, 1_700_000_000_000_000_001)      # ns since the epoch; neither is a multiple of 256 ns
 
 
 def mk_interp(nold_max, nnew_max):
     """repartition(npartitions=more) on known integer divisions interpolates the new divisions in float64 (np.interp); the values are
     concretised.  Bases beyond 2**53 are included because there the float round trip no longer reproduces the end points."""
     def setup(e):
-        base = e.pick("base", BASES)
+        dt = e.flag("datetime_ns")
+        base = e.pick("base", DT_BASES if dt else BASES)
         nold = 1 + e.choice("nold", nold_max)
         gaps = [e.int(f"g{i}", 1, 3) for i in range(nold)]
         nnew = e.int("nnew", 2, nnew_max)
@@ -311,18 +313,25 @@ def mk_interp(nold_max, nnew_max):
         # number of partitions the call will produce: a guess variable, pinned to the observed value below, so that it is part of
         # the model (the known-finding predicate for "fewer partitions than asked" is stated over it)
         parts = e.int("parts", 1, 2 * nnew_max)
-        return base, gaps, nnew, parts
+        return dt, base, gaps, nnew, parts
 
-    def run(e, base, gaps, nnew, parts):
+    def run(e, dt, base, gaps, nnew, parts):
+        unit = 3_000_000 if dt else 1           # datetime gaps are multiples of 3 ms
         divs = [base]
         for g in gaps:
-            divs.append(divs[-1] + operator.index(g))
+            divs.append(divs[-1] + operator.index(g) * unit)
         nnew = operator.index(nnew)
         idx = []
         for a, b in zip(divs, divs[1:]):
-            idx += list(range(a, b))
+            idx += list(range(a, b, unit))
         idx.append(divs[-1])
-        df = pd.DataFrame({"x": range(len(idx))}, index=pd.Index(idx, dtype="int64"))
+        if dt:
+            import numpy as np
+            idx = list(pd.DatetimeIndex(np.array(idx, dtype="datetime64[ns]")))
+            divs = list(pd.DatetimeIndex(np.array(divs, dtype="datetime64[ns]")))
+            df = pd.DataFrame({"x": range(len(idx))}, index=pd.DatetimeIndex(idx))
+        else:
+            df = pd.DataFrame({"x": range(len(idx))}, index=pd.Index(idx, dtype="int64"))
         src = dd.from_pandas(df, npartitions=1).repartition(divisions=divs)
         e.check(src.divisions == tuple(divs), "setup: source divisions")
         out = src.repartition(npartitions=nnew)
@@ -343,7 +352,7 @@ def mk_interp(nold_max, nnew_max):
                 e.check(ok, f"partition {i} holds index {x} outside [{lo}, {hi}{']' if i == n - 1 else ')'}")
         # last, so that the clauses above are also decided on inputs covered by the listed known finding
         e.check(lambda: parts == nnew, f"repartition(npartitions={nnew}) of integer divisions {divs} yields {nparts} partitions (divisions {out.divisions})")
-        return [int(d) for d in out.divisions]
+        return [str(d) for d in out.divisions]
 
     return Obligation(f"more_partitions_numeric[nold<={nold_max},nnew<={nnew_max}]", setup, run)
 
